@@ -126,6 +126,7 @@ def run_type(chk, G, S, w, ty, x, xv, corr_fail):
             continue
         plist = list(streams.payloads(chk, G, S, w, u[1], n_mut=2, n_junk=1))
         plist += missing_key_payloads(chk, S, ty, u[1])
+        plist += list(streams.validator_payloads(chk, G, S, w, ty, u[1]))
         for kind, p, pv in plist:
             ri = S.impl_st(cfg, ty, p, payload=pv)
             case = {"world": w, "cfg": cfg, "ty": ty, "payload": p}
@@ -199,7 +200,7 @@ def run(chk: framework.Check):
     n_worlds = 200 if chk.tier == "quick" else 2500
     corr_fail = []
     for G, S, w in streams.worlds(chk, drv, n_worlds, unions=True, nt=True, coercible=True, enum_lits=True,
-                                   map_targets=True):
+                                   map_targets=True, class_features=True):
         cases = list(streams.typed_values(chk, G, S, w, n_types=4, n_values=1))
         # every TypedDict class of the world as a type of its own (the type stream draws class types rarely): the ways of
         # spelling requiredness (totality, hierarchies of mixed totality, markers) are per class
